@@ -34,6 +34,8 @@ type Request struct {
 	Prefix bool   `json:"prefix,omitempty"` // send to the server configured with a path prefix
 	// NoPrefix (with Prefix): send Raw as it is to the prefixed server; it must answer 404.
 	NoPrefix bool `json:"no_prefix,omitempty"`
+	// PrefixAs (with Prefix): an equivalent spelling of the configured prefix to send instead of it.
+	PrefixAs string `json:"prefix_as,omitempty"`
 	// SafeOf >= 0 marks a safe instance of Routes[SafeOf] (clause C); -1 otherwise.
 	SafeOf int `json:"safe_of"`
 }
